@@ -1,0 +1,71 @@
+//go:build verif
+
+package zap
+
+import (
+	"os"
+	"sort"
+)
+
+// Verification hooks (build tag "verif" only; add-only, nothing here is
+// compiled into a normal build).  They expose the private sink and encoder
+// registries so that an external harness can stub the file opener, start every
+// case from a fresh registry and read the registered names back.
+
+// VerifSetOpenFile replaces the function the sink registry uses to open files
+// (os.OpenFile by default) and returns a function restoring the previous one.
+func VerifSetOpenFile(f func(string, int, os.FileMode) (*os.File, error)) (restore func()) {
+	_sinkRegistry.mu.Lock()
+	prev := _sinkRegistry.openFile
+	_sinkRegistry.openFile = f
+	_sinkRegistry.mu.Unlock()
+	return func() {
+		_sinkRegistry.mu.Lock()
+		_sinkRegistry.openFile = prev
+		_sinkRegistry.mu.Unlock()
+	}
+}
+
+// VerifResetRegistries puts the sink registry back to its initial content
+// (the "file" scheme only, keeping the current file opener) and the encoder
+// registry back to the built-in "console" and "json" encoders.
+func VerifResetRegistries() {
+	_sinkRegistry.mu.Lock()
+	open := _sinkRegistry.openFile
+	_sinkRegistry.mu.Unlock()
+	sr := newSinkRegistry()
+	sr.openFile = open
+	_sinkRegistry = sr
+
+	_encoderMutex.Lock()
+	for name := range _encoderNameToConstructor {
+		if name != "console" && name != "json" {
+			delete(_encoderNameToConstructor, name)
+		}
+	}
+	_encoderMutex.Unlock()
+}
+
+// VerifSinkSchemes returns the registered sink schemes, sorted.
+func VerifSinkSchemes() []string {
+	_sinkRegistry.mu.Lock()
+	defer _sinkRegistry.mu.Unlock()
+	out := make([]string, 0, len(_sinkRegistry.factories))
+	for k := range _sinkRegistry.factories {
+		out = append(out, k)
+	}
+	sort.Strings(out)
+	return out
+}
+
+// VerifEncoderNames returns the registered encoder names, sorted.
+func VerifEncoderNames() []string {
+	_encoderMutex.RLock()
+	defer _encoderMutex.RUnlock()
+	out := make([]string, 0, len(_encoderNameToConstructor))
+	for k := range _encoderNameToConstructor {
+		out = append(out, k)
+	}
+	sort.Strings(out)
+	return out
+}
